@@ -167,7 +167,8 @@ Theorem C04_dict_msgpack_bytes_refuted :
 Proof. exact dict_msgpack_bytes_refuted. Qed.
 
 (** the code before the repairs does not have the property: an Integer member receives the
-    float 2.0, a Boolean member the int 1, a ComplexModel member the list [] *)
+    float 2.0, a Boolean member the int 1, a ComplexModel member the list [], and (validate()
+    run before XmlAttribute / XmlData is unwrapped) an XmlAttribute(Unicode) member the list [1] *)
 Theorem C04_dict_unrepaired_refuted :
   let C := mkdcfg PJson true true unrepaired no_reader no_reader no_decode in
   dwf one_class = true
@@ -176,7 +177,9 @@ Theorem C04_dict_unrepaired_refuted :
   /\ (fdv C one_class 2 (DPrim DBool) true (JInt 1) = Ok (NInt 1)
       /\ ~ has_dtype one_class (NInt 1) (DPrim DBool))
   /\ (fdv C one_class 2 (DRef 0%nat) true JNull = Ok (NList [])
-      /\ ~ has_dtype one_class (NList []) (DRef 0%nat)).
+      /\ ~ has_dtype one_class (NList []) (DRef 0%nat))
+  /\ (fdv C one_class 2 (DWrap DText) true (JList [JInt 1]) = Ok (NRaw (JList [JInt 1]))
+      /\ ~ has_dtype one_class (NRaw (JList [JInt 1])) (DWrap DText)).
 Proof. exact dict_unrepaired_refuted. Qed.
 
 (* ------------------------------------------------------------------ non-vacuity *)
